@@ -425,6 +425,14 @@ impl NestedMeta {
             .parse2(tokens)
             .map(|punctuated| punctuated.into_iter().collect())
     }
+
+    /// Parse the contents of `list` like [`NestedMeta::parse_meta_list`]. An error about input that
+    /// ends too early (`name(x = )`) points at the list's closing delimiter instead of at the
+    /// macro call site, which is all a bare token stream can offer.
+    pub fn parse_meta_list_of(list: &syn::MetaList) -> syn::Result<Vec<Self>> {
+        list.parse_args_with(syn::punctuated::Punctuated::<NestedMeta, Token![,]>::parse_terminated)
+            .map(|punctuated| punctuated.into_iter().collect())
+    }
 }
 
 impl syn::parse::Parse for NestedMeta {
